@@ -27,11 +27,21 @@ def entries():
     return _cache
 
 
+_open = {}
+
+
 def is_open(key: str) -> bool:
-    for e in entries():
-        if e["key"] == key:
-            return e.get("status") == "open"
-    return False
+    from crosshair.tracers import NoTracing
+
+    with NoTracing():
+        v = _open.get(key)
+        if v is None:
+            v = False
+            for e in entries():
+                if e["key"] == key:
+                    v = e.get("status") == "open"
+            _open[key] = v
+        return v
 
 
 def excluded(key: str, trigger) -> bool:
